@@ -688,6 +688,35 @@ fn replay_one(beh: &Value, dir: &str, deep_every: bool, twin: bool) -> Value {
 					Err(_) => "panic".to_string(),
 				}
 			}
+			"QueryTx" => {
+				// the pool-facing queries on a transaction built from the model's description
+				let c = chain.as_ref().unwrap();
+				let arr = |x: &Value| -> Vec<u64> { x.as_array().map(|a| a.iter().map(|y| y.as_u64().unwrap()).collect()).unwrap_or_default() };
+				let qb = Blk {
+					parent: 0,
+					height: 0,
+					diff: 1,
+					ins: arr(&s["tx"]["ins"]),
+					outs: arr(&s["tx"]["outs"]),
+					lock: s["tx"]["lock"].as_u64().unwrap(),
+					flag: "ok".into(),
+				};
+				let r = std::panic::catch_unwind(std::panic::AssertUnwindSafe(|| {
+					let tx = build_tx(&w.tree, &w.pool, &qb);
+					(c.validate_tx(&tx).is_ok(), c.verify_coinbase_maturity(&tx.inputs()).is_ok(), c.verify_tx_lock_height(&tx).is_ok())
+				}));
+				match r {
+					Ok((u, m, l)) => {
+						let exp = &s["res"];
+						let obs = json!({"utxo": u, "mat": m, "lock": l});
+						if exp["utxo"] != obs["utxo"] || exp["mat"] != obs["mat"] || exp["lock"] != obs["lock"] {
+							mism.push(json!({"step": i, "what": "tx_query", "tx": s["tx"], "expected": exp, "observed": obs}));
+						}
+						"query".to_string()
+					}
+					Err(_) => "panic".to_string(),
+				}
+			}
 			"Reopen" => {
 				chain = None;
 				let ad = adapter.clone();
@@ -702,7 +731,7 @@ fn replay_one(beh: &Value, dir: &str, deep_every: bool, twin: bool) -> Value {
 			x => panic!("unknown step {}", x),
 		};
 		classes.push(res.clone());
-		if res != s["res"].as_str().unwrap() {
+		if k != "QueryTx" && res != s["res"].as_str().unwrap_or("?") {
 			mism.push(json!({"step": i, "what": "result", "k": k, "b": b,
 				"flag": w.tree.get(&b).map(|x| x.flag.clone()), "expected": s["res"], "observed": res}));
 		}
